@@ -136,12 +136,27 @@ func VerifH_C03_paged_list() {
 	}
 	vMergeForks(bkt)
 	bkt.pageSize = symChoice("page-size", 3) // 0 = one page, 1, 2
+	// optionally one of the listed versions is vacuumed away by somebody else
+	// right after the listing: the opener passes over it and keeps the others
+	gone := symChoice("vanishes", nv+1) - 1
+	if gone >= 0 {
+		bkt.afterList = func() {
+			names := bkt.names(vPrefix + "/root/current/")
+			if gone < len(names) {
+				delete(bkt.objs, names[gone])
+			}
+		}
+	}
 	writable := symChoice("writable", 2) == 1
 	r, err := vOpen(bkt.client(1), vTableOpts{bf: 2, readOnly: !writable}, 50)
 	symAssert(err == nil, "open-ok")
 	rows, err := vScan(r)
 	symAssert(err == nil, "scan-ok")
 	ks := vKeysOf(rows)
-	symAssert(ks[1] && ks[2] && ks[3], "every-listed-version-is-merged-whatever-the-page-size")
+	if gone < 0 {
+		symAssert(ks[1] && ks[2] && ks[3], "every-listed-version-is-merged-whatever-the-page-size")
+	} else {
+		symAssert(len(ks) >= nv-1, "a-vanished-version-does-not-hide-the-others")
+	}
 	symReach("end")
 }
